@@ -242,8 +242,76 @@ pub fn run(ctx: &Ctx) {
             }
         }
     }
-    // 6. the CLI (`harper-cli lint`): not run (its report is ariadne's terminal rendering); a text
-    //    search that it still hands its lints to `remove_overlaps` before reporting them
+    // 6. the CLI: the real `harper-cli` executable (built from /repo into the harness's own target
+    //    directory) on Markdown files, with no / one / two `--only-lint-with` rules; its report must
+    //    carry each message exactly as many times as `remove_overlaps` of the same group's lints
+    //    does (the report is ariadne's rendering: messages are counted, spans are not parsed)
+    {
+        let target = std::path::PathBuf::from(env!("CARGO_MANIFEST_DIR")).join("target").join("lsbin");
+        let built = std::process::Command::new("cargo")
+            .args(["build", "--offline", "--locked", "-p", "harper-cli", "--manifest-path", "/repo/Cargo.toml", "--target-dir"])
+            .arg(&target)
+            .env("CARGO_NET_OFFLINE", "true")
+            .stdout(std::process::Stdio::null())
+            .stderr(std::process::Stdio::null())
+            .status()
+            .map(|s| s.success())
+            .unwrap_or(false);
+        sess.count(if built { "cli:built" } else { "cli:not-built(stream skipped)" });
+        if built {
+            let bin = target.join("debug").join("harper-cli");
+            let dir = ctx.out.join("c13-cli");
+            let _ = std::fs::create_dir_all(&dir);
+            let texts = [
+                "It was the the the end.\n",
+                "We saw the the the the cat and an an an apple.\n",
+                "This is is is is fine, and that that that too.\n",
+                "There is teh teh teh word here.\n",
+            ];
+            let rule_sets: [&[&str]; 4] = [&[], &["RepeatedWords"], &["RepeatedWords", "SpellCheck"], &["AnA"]];
+            for (ti, text) in texts.iter().enumerate() {
+                for rules in rule_sets {
+                    let file = dir.join(format!("input{}.md", ti));
+                    let _ = std::fs::write(&file, text);
+                    // what the same group reports, overlaps removed
+                    let doc = Document::new_markdown_default(text, &dict);
+                    let mut g = LintGroup::new_curated(dict.clone(), Dialect::American);
+                    if !rules.is_empty() {
+                        g.set_all_rules_to(Some(false));
+                        for r in rules {
+                            g.config.set_rule_enabled(*r, true);
+                        }
+                    }
+                    let Ok(mut want) = guarded(|| g.lint(&doc)) else { continue };
+                    let raw_n = want.len();
+                    remove_overlaps(&mut want);
+                    let mut cmd = std::process::Command::new(&bin);
+                    cmd.arg("lint").arg(&file).arg("--user-dict-path").arg(dir.join("no_user_dict.txt")).arg("--file-dict-path").arg(dir.join("no_file_dicts"));
+                    for r in rules {
+                        cmd.arg("--only-lint-with").arg(r);
+                    }
+                    let Ok(out) = cmd.output() else { continue };
+                    let report = format!("{}{}", String::from_utf8_lossy(&out.stdout), String::from_utf8_lossy(&out.stderr));
+                    sess.o();
+                    sess.count("origin:cli");
+                    let mut msgs: Vec<String> = want.iter().map(|l| l.message.clone()).collect();
+                    msgs.sort();
+                    msgs.dedup();
+                    for m in msgs {
+                        let expect = want.iter().filter(|l| l.message == m).count();
+                        let got = report.matches(m.as_str()).count();
+                        if got != expect {
+                            sess.fail("cli-overlap", format!("harper-cli lint {:?} --only-lint-with {:?}: the report carries {:?} {} time(s), remove_overlaps of the group's {} lints keeps {} such lint(s)", text, rules, m, got, raw_n, expect), json!({"cli_text": text, "rules": rules, "spans": []}), None);
+                        }
+                    }
+                    if raw_n > want.len() {
+                        sess.nontrivial(&format!("cli|{}|{:?}", text, rules));
+                    }
+                }
+            }
+        }
+    }
+    //    and a text search that the CLI still hands its lints to `remove_overlaps` before reporting them
     {
         let main = std::fs::read_to_string("/repo/harper-cli/src/main.rs").unwrap_or_default();
         let lint_at = main.find("linter.lint(&doc)");
@@ -253,7 +321,7 @@ pub fn run(ctx: &Ctx) {
         sess.monitor("harper-cli/src/main.rs: linter.lint(&doc) … remove_overlaps(&mut lints) … Report::build, in this order (text search)", ok);
     }
     sess.finish(
-        "corpus; all lists of ≤4 spans with endpoints ≤3 (quick) / ≤4 (thorough), exhaustively; random lists of 2–24 spans (nested, touching, equal, zero-width, duplicated); span lists of real lints (all rules on) of rule-test sentences; harper_wasm::Linter::lint on sentences of > 40 words with several unknown / repeated words inside (disjoint, and = the model's remove_overlaps of the group's raw lints). Non-trivial = at least one lint dropped; distinct by the op line.",
+        "corpus; all lists of ≤4 spans with endpoints ≤3 (quick) / ≤4 (thorough), exhaustively; random lists of 2–24 spans (nested, touching, equal, zero-width, duplicated); span lists of real lints (all rules on) of rule-test sentences; harper_wasm::Linter::lint on sentences of > 40 words with several unknown / repeated words inside (disjoint, and = the model's remove_overlaps of the group's raw lints); the real harper-cli executable on texts with thrice-repeated words under 0 / 1 / 2 selected rules (message counts = remove_overlaps of the group's lints). Non-trivial = at least one lint dropped; distinct by the op line.",
         true,
         json!({"exhaustive_scope": format!("lists of ≤4 spans, endpoints ≤{}", maxe)}),
     );
